@@ -46,6 +46,10 @@ pub struct Case {
     announce_port: Option<u16>,
     announce: bool,
     rt_seed: u64,
+    /// scripted nodes answer from Kademlia-like limited knowledge (8 nearest nodes per shared
+    /// prefix length) instead of knowing the whole world: searches need several hops
+    #[serde(default)]
+    limited: bool,
 }
 
 pub struct Reach;
@@ -78,11 +82,27 @@ impl Stage for Reach {
             (any::<bool>(), proptest::option::of(1u16..), prop::bool::weighted(0.8), any::<u64>()),
         )
             .prop_map(|((v6, n, placement, world_seed), (info_hash, searcher_id), contacts, peers, lat, (read_only, announce_port, announce, rt_seed))| Case {
-                v6, n, placement, world_seed, info_hash, searcher_id, contacts, peers, lat, read_only, announce_port, announce, rt_seed,
+                v6, n, placement, world_seed, info_hash, searcher_id, contacts, peers, lat, read_only, announce_port, announce, rt_seed, limited: false,
             })
             .boxed()
     }
     fn run(&self, c: &Case) -> Outcome {
+        run_case(c)
+    }
+    fn rule(&self) -> String {
+        RULE.into()
+    }
+    fn sample(&self, c: &Case) -> serde_json::Value {
+        sample_of(c)
+    }
+}
+
+fn sample_of(c: &Case) -> serde_json::Value {
+    serde_json::json!({"n": c.n, "placement": format!("{:?}", c.placement), "contacts": c.contacts.len(), "announce": c.announce, "read_only": c.read_only, "announce_port": c.announce_port, "peers": c.peers.len(), "limited": c.limited})
+}
+
+fn run_case(c: &Case) -> Outcome {
+    {
         let rt = paused_rt(c.rt_seed);
         rt.block_on(async {
             let h = id_of(&c.info_hash);
@@ -121,7 +141,12 @@ impl Stage for Reach {
             let peers = Arc::new(peers);
             let net = SimNet::new(Box::new(RttBudget::new(c.lat.clone(), 999)));
             let rec = Arc::new(Mutex::new(WorldRecord::default()));
-            spawn_omniscient(&net, world.clone(), peers.clone(), Arc::new(vec![]), Arc::new(|_, _| 0), rec.clone());
+            if c.limited {
+                let knowledge = Arc::new(kademlia_knowledge(&world));
+                spawn_limited(&net, world.clone(), knowledge, peers.clone(), rec.clone());
+            } else {
+                spawn_omniscient(&net, world.clone(), peers.clone(), Arc::new(vec![]), Arc::new(|_, _| 0), rec.clone());
+            }
             let node = fam_addr(c.v6, 1, 6881);
             let mut contacts: Vec<SocketAddr> = c.contacts.iter().map(|k| world[*k as usize % n].1).collect();
             contacts.sort();
@@ -154,8 +179,19 @@ impl Stage for Reach {
                 return Outcome::violation("search-sent-nothing", format!("the search ended after {} ms without sending any get_peers although the node is bootstrapped (world of {n})", t_end - t_search));
             };
             // --- announces
-            let expected: Vec<usize> = closest(&world, &h, 8, None);
-            let exp_addrs: HashSet<SocketAddr> = expected.iter().map(|i| world[*i].1).collect();
+            let exp_addrs: HashSet<SocketAddr> = if c.limited {
+                // limited knowledge: the 8 closest among the nodes that answered this search with
+                // a token before it ended (everything the searcher can know)
+                let by_addr: std::collections::HashMap<SocketAddr, Id> = world.iter().map(|w| (w.1, w.0)).collect();
+                let mut resp: Vec<SocketAddr> = o.responses.iter().filter(|r| r.0 <= t_end && r.3.token.is_some() && by_addr.contains_key(&r.1)).map(|r| r.1).collect();
+                resp.sort();
+                resp.dedup();
+                resp.sort_by_key(|a| xor_dist(&by_addr[a], &h));
+                resp.truncate(8);
+                resp.into_iter().collect()
+            } else {
+                closest(&world, &h, 8, None).iter().map(|i| world[*i].1).collect()
+            };
             if !c.announce {
                 if let Some(a) = o.announces.first() {
                     return Outcome::violation("announce-although-not-requested", format!("announce_peer sent to {}", a.1));
@@ -214,23 +250,61 @@ impl Stage for Reach {
                 return Outcome::violation(kind, format!("{} answers delivered; stream yielded {} items, answers contain {}; e.g. {diff:?}", o.responses.len(), yielded.len(), want.values().sum::<i64>()));
             }
             let second_round = o.get_peers.len() > 4;
-            Outcome::pass(n >= 9 && second_round)
-                .label(match n { 1..=8 => "n<=8", 9..=20 => "n:9-20", 21..=200 => "n:21-200", _ => "n:1000" })
+            let distinct_asked: HashSet<SocketAddr> = o.get_peers.iter().map(|g| g.1).collect();
+            let heard: HashSet<SocketAddr> = o.responses.iter().flat_map(|r| r.3.nodes.iter().map(|x| SocketAddr::V4(x.1)).chain(r.3.nodes6.iter().map(|x| SocketAddr::V6(x.1)))).collect();
+            Outcome::pass(if c.limited { heard.len() > 64 } else { n >= 9 && second_round })
+                .label(match n { 1..=8 => "n<=8", 9..=20 => "n:9-20", 21..=200 => "n:21-200", _ => "n:>200" })
                 .label(if c.announce { "announce" } else { "no-announce" })
+                .label(match distinct_asked.len() { 0..=8 => "asked<=8", 9..=64 => "asked:9-64", _ => "asked>64" })
+                .label(if heard.len() > 64 { "heard>64" } else { "heard<=64" })
         })
     }
+}
+
+const RULE: &str = "worlds of 1..20 (70 %), 21..200 or 1000 omniscient scripted nodes (answering get_peers/find_node with the truly closest <= 8 nodes, a fresh unique token and their peer set: 0..6 addresses of both families, duplicated across nodes) with ids uniform, clustered around the info-hash, around the searcher's id, or mixed (0..156 shared prefix bits); one real searcher (read-only or serving, announce port none/some) bootstrapped against 1..8 of them; per-datagram latencies 0..999 ms with every query->answer round trip < 1 s; search with (80 %) or without announce. Oracle from the wire log: announce_peer destinations = the min(8, N) nodes XOR-closest to the info-hash (computed over the whole world), each once, with the token of that node's answer delivered last, the info-hash, the searcher's id and the configured port / implied port; none without announce; stream multiset = multiset union of values of all answers delivered to the search. Non-trivial: N >= 9 and the search went beyond its first 4 queries";
+
+pub struct BigWorld;
+
+impl Stage for BigWorld {
+    type Case = Case;
+    fn name(&self) -> &'static str {
+        "big-world"
+    }
+    fn cases(&self, tier: Tier) -> u32 {
+        tier.pick(200, 6000)
+    }
+    fn watchdog_secs(&self, tier: Tier) -> u64 {
+        tier.pick(600, 1800)
+    }
+    fn strategy(&self, _t: Tier) -> BoxedStrategy<Case> {
+        (
+            (any::<bool>(), prop_oneof![1 => 300u16..700, 4 => 700u16..1500], any::<u64>()),
+            (super::c13::id20(), super::c13::id20()),
+            vec(any::<u16>(), 1..=8),
+            vec((any::<u16>(), 0u8..=6, any::<u8>()), 0..12),
+            vec(prop_oneof![Just(0u16), 0u16..100, 0u16..999], 1..64),
+            (any::<bool>(), proptest::option::of(1u16..), any::<u64>()),
+        )
+            .prop_map(|((v6, n, world_seed), (info_hash, searcher_id), contacts, peers, lat, (read_only, announce_port, rt_seed))| Case {
+                v6, n, placement: Placement::Uniform, world_seed, info_hash, searcher_id, contacts, peers, lat, read_only, announce_port, announce: true, rt_seed, limited: true,
+            })
+            .boxed()
+    }
+    fn run(&self, c: &Case) -> Outcome {
+        run_case(c)
+    }
     fn rule(&self) -> String {
-        "worlds of 1..20 (70 %), 21..200 or 1000 omniscient scripted nodes (answering get_peers/find_node with the truly closest <= 8 nodes, a fresh unique token and their peer set: 0..6 addresses of both families, duplicated across nodes) with ids uniform, clustered around the info-hash, around the searcher's id, or mixed (0..156 shared prefix bits); one real searcher (read-only or serving, announce port none/some) bootstrapped against 1..8 of them; per-datagram latencies 0..999 ms with every query->answer round trip < 1 s; search with (80 %) or without announce. Oracle from the wire log: announce_peer destinations = the min(8, N) nodes XOR-closest to the info-hash (computed over the whole world), each once, with the token of that node's answer delivered last, the info-hash, the searcher's id and the configured port / implied port; none without announce; stream multiset = multiset union of values of all answers delivered to the search. Non-trivial: N >= 9 and the search went beyond its first 4 queries".into()
+        "worlds of 300..1500 scripted nodes with uniform ids that answer from Kademlia-like limited knowledge (for every shared-prefix length the 8 nodes nearest to themselves), so that a search takes several hops and hears of far more than 64 nodes before it hears of the closest ones; otherwise as the search stage (latencies, peers, read-only, ports), always with announce. Oracle: announce_peer destinations = the 8 nodes XOR-closest to the info-hash among all nodes that answered this search with a token before it ended, each once, with the right token / info-hash / id / port; stream multiset = union of the delivered answers' values. Non-trivial: the answers to the search named more than 64 distinct nodes".into()
     }
     fn sample(&self, c: &Case) -> serde_json::Value {
-        serde_json::json!({"n": c.n, "placement": format!("{:?}", c.placement), "contacts": c.contacts.len(), "announce": c.announce, "read_only": c.read_only, "announce_port": c.announce_port, "peers": c.peers.len()})
+        sample_of(c)
     }
 }
 
 pub fn spec() -> PropertySpec {
     PropertySpec {
         id: "C02",
-        stages: vec![Box::new(Reach)],
+        stages: vec![Box::new(Reach), Box::new(BigWorld)],
         assumptions: vec![
             "Scripted nodes never name the searcher itself and always answer (benign network: every round trip < 1 s).".into(),
             "'Closest' is computed by the harness over the whole generated world, independently of the searcher's routing table.".into(),
